@@ -14,7 +14,9 @@ CLAIMED = {
         category="proof",
         text="Theorems C20_sound / C20_complete / C20_exact_found / C20_order / C20_internal_exact_only hold for ALL key lists and "
              "ALL event strings (no bound) about the function as re-translated from base_interpreter._matching_descriptors on every run "
-             "(tie T, bridge lemma GenBridge.gen_matching_eq); the hand model is additionally evaluated in Coq against the implementation on an "
+             "(tie T, bridge lemma GenBridge.gen_matching_eq); 'a null transition consumes its event so that no ancestor's handler runs' is "
+             "C20_null_forbids, stated over BOTH source-translated functions - the descriptor order and the upward walk of "
+             "_collect_eligible_transitions that consults it (C20_walk_is_the_source); the hand model is additionally evaluated in Coq against the implementation on an "
              "exhaustive small scope (K-match) and the property text is re-stated as a Python monitor used to find a failing input when the tie breaks.",
         technique="Coq proof over source-translated Gallina + vm_compute correspondence",
         design_ref="DESIGN.md section 5 C20"),
@@ -26,17 +28,27 @@ CLAIMED["C02"] = dict(
          "well-formed machines, configurations, guard oracles and events: the nominee of an active leaf is the first enabled candidate of the nearest "
          "ancestor-or-self that has one (C02_nominee_nearest_first), every selected transition is such a nominee and is selected once "
          "(C02_selected_is_nominee, C02_shared_ancestor_once), an event without nominee leaves the whole interpreter state unchanged (C02_unhandled_noop), "
-         "can() is exactly 'a nominee exists' (C02_can). The model is tied to the code by differential evaluation inside Coq of whole runs (both engines, "
+         "can() is exactly 'a nominee exists' (C02_can). TIE T: _collect_eligible_transitions and _select_transitions are RE-TRANSLATED from the "
+         "current source on every run (harness/py2coq_tree.py -> coq/Gen/GenGeom.v: the `while current:` walk as a Fixpoint on fuel, loops with "
+         "`break` as folds carrying a flag, max(...) as the first maximal element, the nested helper _passes as a guard oracle) and proved EQUAL "
+         "to the model's collect / select_with for every guard oracle that answers (C02_collect_is_the_source, C02_select_with_is_the_source, "
+         "C02_select_is_the_source, C02_can_is_the_source; a MISSING guard implementation raises out of the selection and stays with the "
+         "correspondence). The model is additionally tied to the code by differential evaluation inside Coq of whole runs (both engines, "
          "can() probed before every send) on selection-stress and random machines; a Python restatement of the property text is the monitor.",
-    technique="Coq proof over hand-written executable model + vm_compute correspondence (K-macro)",
+    technique="Coq proof over an executable model proved equal to the source-translated selection functions (tie T) + vm_compute correspondence (K-macro)",
     design_ref="DESIGN.md section 5 C02")
 CLAIMED["C06"] = dict(
     category="proof",
     text="C06_eval_bool: for every guard expression without a missing predicate, at ANY nesting depth, evaluation equals the ordinary boolean meaning with "
          "a raising predicate read as false; missing predicates reached by evaluation are errors, skipped ones are not consulted; stateIn is membership of "
-         "the designated state(s); eligible candidates of a bucket are exactly the true-guard ones in order. Tied to the code by K-macro on exhaustively "
+         "the designated state(s); eligible candidates of a bucket are exactly the true-guard ones in order. TIE T: the and / or / not part of "
+         "_is_guard_satisfied is RE-TRANSLATED from the current source on every run (harness/py2coq_guard.py -> coq/Gen/GenGuard.v: all(...) / "
+         "any(...) over the recursing generator in Python's short-circuit order, exceptions in the option monad, `not` on children[0]) and "
+         "proved to compute the model's evaluation at ANY nesting depth (C06_composites_are_the_source, C06_transition_guard_is_the_source); "
+         "the non-composite guards (stateIn, user predicate, raise = false, missing = error) are the oracle of that theorem and stay with the "
+         "correspondence, which now also covers a guard whose value changes between two microsteps of one settle. Tied to the code by K-macro on exhaustively "
          "enumerated formulas (depth <= 2 over 10 atoms incl. falsy params) at 3 positions x 4 valuations x both operand spellings x guard/cond.",
-    technique="Coq proof (structural induction on guards) + vm_compute correspondence",
+    technique="Coq proof (structural induction on guards) + source-translated composite evaluator (tie T) + vm_compute correspondence",
     design_ref="DESIGN.md section 5 C06")
 CLAIMED["C10"] = dict(
     category="proof",
